@@ -18,8 +18,9 @@ CLAIMED = {
              "map/imap/collect/icollect/align under fake thread/process pools "
              "(1-8 workers, 1-8 files, bundles, files= vs period selection, "
              "plain and gzip-compressed files, optional output fileset written "
-             "by the workers on a scheduling file system) with failing "
-             "readers/functions; every run is compared with the sequential "
+             "by the workers on a scheduling file system, equal base names in "
+             "day directories) with failing readers (OSError/KeyError/EOFError) "
+             "and functions; every run is compared with the sequential "
              "program, exactly-once read counts, the imap in-flight bound, "
              "exception and warning rules, the files of the output fileset and "
              "an empty temp directory. A quarter of the runs aim at one "
@@ -42,10 +43,13 @@ CLAIMED = {
              "Process/Queue/ThreadPool objects whose every interleaving, queue "
              "delivery delay, reader latency and clock jump comes from one "
              "seeded tape (1-4 processes, all bundle modes, memory/fileset/"
-             "search output, period cuts, one unreadable file). The multiset "
-             "of reported pairs is compared with a brute force over all "
-             "points; liveness = the generator terminates. Sampled, not "
-             "enumerated.",
+             "search output in pickle or NetCDF4, period cuts incl. exactly on "
+             "file boundaries, one unreadable file; rarely a dense file pair "
+             "that takes the pre-binned search, with line pre-emption inside "
+             "pool workers). The multiset of reported pairs is compared with a "
+             "brute force over all points and every result - yielded or read "
+             "back - point by point with the input files; liveness = the "
+             "generator terminates. Sampled, not enumerated.",
         note="Trusted: the process/queue/pool models in sim/mp.py and "
              "sim/executors.py (bounded queue, feeder delay, child exits only "
              "after its items are in the pipe); start/end always explicit; "
@@ -66,7 +70,9 @@ CLAIMED = {
              "document and load it without warning; the same steps are also "
              "failed with an OSError instead of a crash, and one corruption "
              "kind truncates the document at every byte offset. The handler's "
-             "get_info can fail once (EIO) with the search repeated, and the "
+             "get_info can fail once (EIO) with the search repeated, the "
+             "constructor can be interrupted (KeyboardInterrupt) while it reads "
+             "the cache file with the at-exit handlers run afterwards, and the "
              "cache file's mtime is a harness-owned coarse clock (two versions "
              "within one tick carry the same stamp). Crash points are "
              "enumerated exhaustively per history; histories are sampled.",
@@ -116,10 +122,12 @@ CLAIMED = {
              "with the harness's own formatter; the file system seam adds a "
              "scheduling point before every isdir/makedirs/copy/move and the "
              "handlers contain yield points, so concurrent writers really "
-             "overlap. One fault kind: the handler's write fails with ENOSPC "
-             "for one file of a converting move - every selected data set must "
-             "still be readable somewhere. Histories and schedules are "
-             "sampled.",
+             "overlap. Histories include reads with arguments of their own, "
+             "single-file filesets moved/copied/converted and new data stored "
+             "for a moved period. One fault kind: the handler's write fails "
+             "with ENOSPC for one file of a converting move - every selected "
+             "data set must still be readable somewhere. Histories and "
+             "schedules are sampled.",
         note="Equality notions per handler are stated in the evidence "
              "assumptions; NetCDF pseudo groups only one level deep on "
              "dimensions of their own (groups inheriting a dimension fail "
@@ -141,8 +149,12 @@ CLAIMED = {
              "derived by an independent name model. Histories include two "
              "find() generators consumed alternately, the same filters dict "
              "passed twice and an invalid regular expression as filter value "
-             "repeated. The simulator decides the storage/listing/history "
-             "part; the alignment space is sampled.",
+             "repeated; a fifth of the runs construct the FileSet for a decoy "
+             "layout and re-point it by path assignment, and in a sixth two "
+             "simulated caller threads run consecutive queries on the shared "
+             "FileSet with line pre-emption inside typhon.files.fileset. The "
+             "simulator decides the storage/listing/history/interleaving part; "
+             "the alignment space is sampled.",
         note="Files always satisfy the stated preconditions (directory of the "
              "start time, duration <= finest directory period); templates carry "
              "a complete start date; fsspec's glob sorts listings, so listing "
@@ -159,7 +171,10 @@ CLAIMED = {
              "filters and exclusions; the returned file must be eligible, "
              "must contain t if an eligible file in the +-one-directory-period "
              "neighbourhood does, else be at minimal endpoint distance; "
-             "absence must be reported as NoFilesError/None.",
+             "absence must be reported as NoFilesError/None. As in C01: the "
+             "same filters dict passed twice, invalid filter expressions "
+             "repeated, FileSets re-pointed by path assignment, two caller "
+             "threads with line pre-emption.",
         note="Timestamps at name resolution; neighbourhood = finest temporal "
              "directory level (31 d month, 366 d year / non-temporal directory "
              "part), all files without sub directory; ties may go either way; "
@@ -182,7 +197,9 @@ CLAIMED = {
              "datasets updated in place between calls. The calls run as a "
              "task of the kernel with concurrent.futures routed to simulated "
              "pools and, for Collocator(threads >= 2) on the binned path, "
-             "line-level pre-emption inside pool workers. One fault kind: the "
+             "line-level pre-emption inside pool workers. Swath dimension names "
+             "vary, large swaths reach the pre-binned path, another Collocator "
+             "may work on the same data in between. One fault kind: the "
              "k-th tree construction or radius query raises MemoryError - that "
              "call may fail, later calls on the same Collocator must be exact. "
              "Histories and inputs are sampled.",
@@ -208,8 +225,9 @@ CLAIMED = {
              "are injected at the tree seam (a failing build is retried, a "
              "failing query may raise or must be exact), and in a sixth of the "
              "runs two simulated caller threads share the index with line "
-             "pre-emption inside typhon.geographical. Sampled, not "
-             "enumerated.",
+             "pre-emption inside typhon.geographical; in 2 of 5 runs the index "
+             "is queried through a pickle round trip or a deep copy. Sampled, "
+             "not enumerated.",
         note="Radii lie between distinct distance values (never within 1 mm of "
              "one) and do not exceed half the circumference for haversine; "
              "exact antipodes under haversine are numerically singular in "
@@ -238,8 +256,9 @@ CLAIMED = {
              "directory is preset or resolved by typhon from a simulated "
              "environment, and in a fifth of the synthetic runs two caller "
              "threads start on a completely warm cache with line pre-emption "
-             "inside typhon.topography (no download may happen). Rectangles "
-             "and histories are sampled.",
+             "inside typhon.topography (no download may happen); tiles a "
+             "request needs may be put into the cache directory from outside "
+             "right before it. Rectangles and histories are sampled.",
         note="Overhangs of exactly one cell +-1e-9 deg are border cases (float "
              "image of an edge on a grid line); faults during extractall are "
              "not injected; in configuration (a) get_tile/download_tile are "
